@@ -27,14 +27,28 @@ def run(ids, tier="quick", seeds=("1",)):
     if not ids:
         ids = sorted(x for x in os.listdir(SD) if os.path.isdir(os.path.join(SD, x)))
     rows = []
+    # the checks regenerate lean/AslModel/Generated from the tree they are pointed at and rebuild the driver: runs on changed
+    # trees get a private copy of the Lean project so that they cannot disturb (or be disturbed by) checks run on /repo itself
+    lean_copy = "/var/tmp/asl-verif-main/seedlean-%d" % os.getpid()
+    subprocess.run(["rsync", "-a", "--delete", os.path.join(HERE, "lean") + "/", lean_copy + "/"], check=True)
+    os.environ["VERIF_LEAN"] = lean_copy
+    os.environ["VERIF_SCRATCH"] = "/var/tmp/asl-verif-seeded"
+    try:
+        return _run(ids, tier, seeds, rows)
+    finally:
+        shutil.rmtree(lean_copy, ignore_errors=True)
+
+
+def _run(ids, tier, seeds, rows):
     for sid in ids:
         d = os.path.join(SD, sid)
         meta = json.load(open(os.path.join(d, "meta.json")))
         prop = meta["property"]
         # the change is applied to a scratch copy of /repo's current tree (VERIF_REPO), so that nothing else
         # that uses /repo at the same time is disturbed; the checks rebuild from that copy
-        copy = "/var/tmp/asl-verif-main/seedrepo-%s-%d" % (sid, os.getpid())
+        copy = "/var/tmp/asl-verif-seeded/seedrepo-%s-%d" % (sid, os.getpid())
         shutil.rmtree(copy, ignore_errors=True)
+        os.makedirs(os.path.dirname(copy), exist_ok=True)
         subprocess.run(["rsync", "-a", "--exclude", "_build", "--exclude", ".git", "/repo/", copy + "/"], check=True)
         r = subprocess.run(["patch", "-p1", "-s", "-d", copy, "-i", os.path.join(d, "patch.diff")], stdout=subprocess.PIPE, stderr=subprocess.STDOUT)
         if r.returncode != 0:
